@@ -142,6 +142,7 @@ pub struct Sh {
 	/// task and one flush task: such work is never nested inside itself)
 	in_compaction: Cell<u32>,
 	in_flush: Cell<u32>,
+	in_checkpoint: Cell<bool>,
 	closing: Cell<bool>,
 }
 
@@ -288,6 +289,7 @@ impl Sh {
 			failed_commits: RefCell::new(Vec::new()),
 			in_compaction: Cell::new(0),
 			in_flush: Cell::new(0),
+			in_checkpoint: Cell::new(false),
 			closing: Cell::new(false),
 		})
 	}
@@ -309,18 +311,6 @@ impl Sh {
 	/// transactions only.
 	fn fail_reads(&self, class: &str, detail: String, h: u64, got: &dyn Fn(&[u8]) -> Option<Option<Val>>, keys: &[Key]) {
 		let mut explained = None;
-		if self.stats.borrow().reopens > 0 || self.plan.steps.iter().any(|s| matches!(s, Step::RecoverSettle)) {
-			let m = self.model.borrow();
-			if m.commits.iter().any(|c| c.straddled() && c.last_seq <= h) {
-				let ok = keys.iter().all(|k| match got(k) {
-					Some(g) => m.possible(k, h, &|c| c.straddled()).contains(&g),
-					None => true,
-				});
-				if ok {
-					explained = Some("rotation_straddle".to_string());
-				}
-			}
-		}
 		// known finding "post_wal_failure_not_undone": under injected faults, writes of a
 		// commit that failed after its WAL append may be (partly) visible
 		if explained.is_none() && self.faults_active.get() {
@@ -333,6 +323,19 @@ impl Sh {
 				});
 				if ok {
 					explained = Some("post_wal_failure_not_undone".to_string());
+				}
+			}
+		}
+		// (F1 is repaired: labels the report only, evaluated after the open finding's predicate)
+		if explained.is_none() && (self.stats.borrow().reopens > 0 || self.plan.steps.iter().any(|s| matches!(s, Step::RecoverSettle))) {
+			let m = self.model.borrow();
+			if m.commits.iter().any(|c| c.straddled() && c.last_seq <= h) {
+				let ok = keys.iter().all(|k| match got(k) {
+					Some(g) => m.possible(k, h, &|c| c.straddled()).contains(&g),
+					None => true,
+				});
+				if ok {
+					explained = Some("rotation_straddle".to_string());
 				}
 			}
 		}
@@ -452,6 +455,12 @@ impl Sh {
 			.flat_map(|w| w.steps.iter().cloned())
 			.collect();
 		if steps.is_empty() {
+			return;
+		}
+		// a commit made while create_checkpoint is running may or may not be part of the
+		// checkpoint (it depends on which side of the memtable rotation it lands): the model
+		// has one answer per checkpoint, so windows with transaction steps stay closed then
+		if self.in_checkpoint.get() && steps.iter().any(|s| s.actor().is_some()) {
 			return;
 		}
 		self.ev(format!("window {}#{} ({} steps)", label, nth, steps.len()));
@@ -857,7 +866,7 @@ impl Sh {
 			Step::Probe => self.probe(&tree),
 			Step::Rotate => self.bg("rotate", tree.verif_rotate().map(|_| false)),
 			Step::RotateFlushIfUnlocked => {
-				if tree.verif_active_memtable_unlocked() && self.in_flush.get() == 0 {
+				if tree.verif_active_memtable_unlocked() && tree.verif_flush_lock_free() {
 					self.ev("tripwire: active memtable unlocked inside a guarded window".into());
 					self.bg("rotate", tree.verif_rotate().map(|_| false));
 					self.in_flush.set(self.in_flush.get() + 1);
@@ -866,7 +875,14 @@ impl Sh {
 					self.bg("flush_all", r);
 				}
 			}
-			Step::FlushOne | Step::FlushAll if self.in_flush.get() > 0 => {}
+			// The store serializes flushes (flush lock, fix 898a7dd): a flush step nested in a
+			// window of another flush stands for a second flusher (background task vs a
+			// checkpoint on the caller's thread) and would have to wait. It is skipped while the
+			// lock is held (by a flush step further up this stack or by the store's own flush
+			// task, in whose window this step runs) and RUN whenever the lock is observed free
+			// (tripwire: on the unchanged tree that is never the case inside a flush).
+			Step::FlushOne | Step::FlushAll if !tree.verif_flush_lock_free() => {}
+			Step::Checkpoint | Step::CheckpointB if !tree.verif_flush_lock_free() => {}
 			Step::CompactRound | Step::CompactAll if self.in_compaction.get() > 0 => {}
 			Step::FlushOne => {
 				self.in_flush.set(self.in_flush.get() + 1);
@@ -993,7 +1009,13 @@ impl Sh {
 		}
 		let dir = self.checkpoint_dir_of(second);
 		let _ = std::fs::remove_dir_all(&dir);
-		match tree.create_checkpoint(&dir) {
+		// create_checkpoint flushes on the caller's thread
+		self.in_flush.set(self.in_flush.get() + 1);
+		self.in_checkpoint.set(true);
+		let r = tree.create_checkpoint(&dir);
+		self.in_checkpoint.set(false);
+		self.in_flush.set(self.in_flush.get() - 1);
+		match r {
 			Ok(_) => {
 				let slot = if second { &self.checkpoint_model_b } else { &self.checkpoint_model };
 				*slot.borrow_mut() = Some(self.model.borrow().clone());
